@@ -329,6 +329,12 @@ type c20Slot struct {
 func c20P(name string) c20Slot {
 	return c20Slot{Name: name, Put: func(a c20Args, h string) { a.P[name] = h }}
 }
+// c20PNB: a parameter whose blank value makes the element invalid (gripql Validate refuses a blank
+// id / label / endpoint): the element is then skipped and sends no statement — a refusal, not a
+// statement whose structure depends on the string — so the blank string is not substituted there
+func c20PNB(name string) c20Slot {
+	return c20Slot{Name: name, Put: func(a c20Args, h string) { a.P[name] = h }, Skip: func(h string) bool { return h == "" }}
+}
 func c20L(name string, i int) c20Slot {
 	return c20Slot{Name: fmt.Sprintf("%s[%d]", name, i), Put: func(a c20Args, h string) { a.L[name][i] = h }}
 }
@@ -451,13 +457,13 @@ func c20Calls() []c20Call {
 		return pg().BulkAdd(ch)
 	}
 	add(c20Call{Drv: "psql", Fn: "Graph.BulkAdd", Variant: "vertices", Base: c20Args{P: map[string]string{"id": "v1", "label": "L"}},
-		Slots: []c20Slot{c20P("id"), c20P("label")}, FnOf: bulkFn,
+		Slots: []c20Slot{c20PNB("id"), c20PNB("label")}, FnOf: bulkFn,
 		Run: func(a c20Args, _ bool) error {
 			return bulk(&gdbi.GraphElement{Graph: "g", Vertex: &gdbi.Vertex{ID: a.P["id"], Label: a.P["label"], Data: map[string]interface{}{"k": a.P["id"]}}},
 				&gdbi.GraphElement{Graph: "g", Vertex: &gdbi.Vertex{ID: "v2", Label: "L"}})
 		}})
 	add(c20Call{Drv: "psql", Fn: "Graph.BulkAdd", Variant: "edges", Base: c20Args{P: map[string]string{"id": "e1", "label": "L", "from": "v1", "to": "v9"}},
-		Slots: []c20Slot{c20P("id"), c20P("label"), c20P("from"), c20P("to")}, FnOf: bulkFn,
+		Slots: []c20Slot{c20PNB("id"), c20PNB("label"), c20PNB("from"), c20PNB("to")}, FnOf: bulkFn,
 		Run: func(a c20Args, _ bool) error {
 			// the endpoints are not part of the stream (a dangling load)
 			return bulk(&gdbi.GraphElement{Graph: "g", Edge: &gdbi.Edge{ID: a.P["id"], Label: a.P["label"], From: a.P["from"], To: a.P["to"]}})
